@@ -1,7 +1,122 @@
 import CddVerif.Driver.Basic
-/-! Driver ops for C16 (line protocol; see Main.lean). Only Mathlib-free imports here. -/
-namespace Driver.C16
-open Lean Driver
+import CddVerif.Model.OpenApi
+/-! Driver ops for C16 (line protocol; see Main.lean). Only Mathlib-free imports here.
 
-def ops : List (String × Handler) := []
+Wire encoding of a `J` value (keeps dict order): `null`, `true/false`, integer, string as themselves;
+float → `{"f": "<repr>"}`; list → `{"a": [...]}`; dict → `{"o": [[key, value], ...]}`. -/
+namespace Driver.C16
+open Lean Driver OpenApi
+
+partial def dec (j : Json) : Except String J :=
+  match j with
+  | .null => pure .null
+  | .bool b => pure (.bool b)
+  | .str s => pure (.str s.toList)
+  | .num n => if n.exponent == 0 then pure (.num n.mantissa) else throw "non-integer number on the wire"
+  | .arr _ => throw "bare array on the wire"
+  | .obj _ =>
+    match j.getObjVal? "f" with
+    | .ok (.str r) => pure (.flt r.toList)
+    | _ =>
+      match j.getObjVal? "a" with
+      | .ok (.arr xs) => do return .arr (← xs.toList.mapM dec)
+      | _ =>
+        match j.getObjVal? "o" with
+        | .ok (.arr kvs) => do
+          let l ← kvs.toList.mapM (fun kv => match kv with
+            | .arr #[.str k, v] => do return (k.toList, ← dec v)
+            | _ => throw "bad pair")
+          return .obj l
+        | _ => throw "bad object on the wire"
+
+partial def enc : J → Json
+  | .null => .null
+  | .bool b => .bool b
+  | .num n => int n
+  | .flt r => Json.mkObj [("f", str r)]
+  | .str s => str s
+  | .arr xs => Json.mkObj [("a", Json.arr (xs.map enc).toArray)]
+  | .obj kvs => Json.mkObj [("o", Json.arr (kvs.map (fun kv => Json.arr #[str kv.1, enc kv.2])).toArray)]
+
+def decDict (j : Json) : Except String Dict := do
+  match ← dec j with
+  | .obj kvs => pure kvs
+  | _ => throw "dict expected"
+
+def decEntry (j : Json) : Except String Entry := do
+  let model ← match j.getObjVal? "model" with
+    | .ok m => decDict m
+    | .error _ => pure []
+  return { name := ← getChars j "name", model := model, route := ← getChars j "route", id := ← getChars j "id",
+           crud := ← getChars j "crud" }
+
+def decKind (s : String) : Except String Kind :=
+  match s with
+  | "create" => pure .create
+  | "read" => pure .read
+  | "destroy" => pure .destroy
+  | _ => throw "bad kind"
+
+def pairs (l : List (Py.Str × Py.Str)) : Json := Json.arr (l.map (fun p => Json.arr #[str p.1, str p.2])).toArray
+
+/-- the document together with the property's oracle evaluated on it by the model -/
+def report (doc : J) : Json :=
+  Json.mkObj [("doc", enc doc), ("closed", Json.bool (closedB doc)), ("dangling", strs (dangling doc)),
+              ("params_ok", Json.bool (paramsDeclaredB doc)), ("ops", pairs (allOps doc))]
+
+def exceptJson (r : Except String Json) : Json :=
+  match r with
+  | .ok j => j
+  | .error e => Json.mkObj [("raises", Json.str e)]
+
+def ops : List (String × Handler) := [
+  ("c16.emit", fun j => do
+    let es ← (← getArr j "entries").toList.mapM decEntry
+    return report (openapi es)),
+  ("c16.requested", fun j => do
+    let es ← (← getArr j "entries").toList.mapM decEntry
+    return Json.mkObj [("ops", pairs (es.flatMap requested))]),
+  ("c16.entities", fun j => do
+    let s ← getChars j "s"
+    return Json.mkObj [("entities", strs (extractEntities s))]),
+  ("c16.parse", fun j => do
+    let s ← getChars j "s"
+    let loaded ← dec (← j.getObjVal? "loaded")
+    let method ← getChars j "method"
+    let summary ← getChars j "summary"
+    let (s', ne) := rewriteRefs s
+    return Json.mkObj [("replaced", str s'), ("non_error", optStr ne),
+      ("result", exceptJson ((parseOpenapi s (fun _ => loaded) method summary).map enc))]),
+  ("c16.payload", fun j => do
+    let k ← decKind (← getStr j "kind")
+    let name ← getChars j "name"
+    return Json.mkObj [("direct", enc (templatePayload k name)), ("via", exceptJson ((payloadViaParse k name).map enc)),
+                       ("yaml", str (templateYaml k name)), ("summary", str (templateSummary k name))]),
+  ("c16.pk", fun j => do
+    let ps ← (← getArr j "params").toList.mapM (fun p => match p with
+      | .arr #[.str k, .str d] => pure (k.toList, some d.toList)
+      | .arr #[.str k, .null] => pure (k.toList, (none : Option Py.Str))
+      | _ => throw "bad param")
+    return exceptJson ((pickPk ps).map (fun pk => Json.mkObj [("pk", str pk)]))),
+  ("c16.bulk_key", fun j => do
+    let t ← getChars j "table"
+    return Json.mkObj [("key", str (bulkKey t))]),
+  -- tables + routes files; a file is a list of upsert batches, a batch is one entry (name, route, id, crud)
+  ("c16.bulk", fun j => do
+    let ts ← (← getArr j "tables").toList.mapM (fun t => do
+      return ({ name := ← getChars t "name", schema := ← decDict (← t.getObjVal? "schema") } : Table))
+    let app ← getChars j "app"
+    let files ← (← getArr j "files").toList.mapM (fun f => do
+      let bs ← f.getArr?
+      bs.toList.mapM (fun b => do return (← getChars b "app", ← decEntry b)))
+    let routes := files.flatMap (fun batches => visibleRoutes (batches.map (fun b => genRoutes b.1 b.2)))
+    return exceptJson ((bulk app ts routes).map report)),
+  -- tables + explicit route functions (path, method, payload = what bottle() returned)
+  ("c16.bulk_raw", fun j => do
+    let ts ← (← getArr j "tables").toList.mapM (fun t => do
+      return ({ name := ← getChars t "name", schema := ← decDict (← t.getObjVal? "schema") } : Table))
+    let routes ← (← getArr j "routes").toList.mapM (fun r => do
+      return ({ app := ← getChars r "app", path := ← getChars r "path", method := ← getChars r "method", payload := ← dec (← r.getObjVal? "payload") } : RouteFn))
+    return exceptJson ((bulk (← getChars j "app") ts routes).map report))
+]
 end Driver.C16
